@@ -15,13 +15,15 @@ def cfg_for(mode, tstrength_doc=False):
     return p
 
 
-def record(chk, yv, tag, nfiles, programs, steps):
+def record(chk, yv, tag, nfiles, programs, steps, exclude=(), only=None):
     wd = workdir(tag)
     files = []
+    os.environ["YV_EXCLUDE"] = ",".join(exclude)
     for i in range(nfiles):
-        f = os.path.join(wd, "trace_%d.ndjson" % i)
-        n = harness_lines(run_harness(yv, ["ind-record", chk.seed * 100 + i, programs, steps, 1, f]))[0]["events"]
+        f = os.path.join(wd, "trace_%s%d.ndjson" % (only or "", i))
+        n = harness_lines(run_harness(yv, ["ind-record", chk.seed * 100 + i, programs, steps, 1, f] + ([only] if only else [])))[0]["events"]
         files.append((f, n))
+    os.environ["YV_EXCLUDE"] = ""
     return files
 
 
